@@ -87,7 +87,7 @@ def check_one(ctx, key: str, label: str, always_single: bool):
         if pipe:
             rs = f"{pipe}.runtime_status()"
             not_done = norm.entails(fs, ("truth", f"{rs}.is_pipeline_successful()", False))
-            not_failed = norm.entails(fs, ("cmp", "<=", f"{rs}.state_counts[OperatorState.FAILED]", "0"))
+            not_failed = _count_zero(fs, f"{rs}.state_counts[OperatorState.FAILED]")
             ctx.ob(4, "K2", f"[{label}] no work is assigned for a pipeline that already completed", not_done, f, c, construct="guard: not successful",
                    detail=f"facts: {sorted(norm.show(x) for x in fs if 'successful' in norm.show(x))}")
             ctx.ob(4, "K2", f"[{label}] no work is ever assigned for a pipeline one of whose operators has failed (checked on the pipeline's live state)",
@@ -214,7 +214,7 @@ def check_one(ctx, key: str, label: str, always_single: bool):
             pvn = pa.targets[0].id if isinstance(pa, ast.Assign) and isinstance(pa.targets[0], ast.Name) else None
             if pvn:
                 rs = f"{pvn}.runtime_status()"
-                drop = [("truth", f"{rs}.is_pipeline_successful()", True), ("cmp", "<", "0", f"{rs}.state_counts[OperatorState.FAILED]")]
+                drop = [("truth", f"{rs}.is_pipeline_successful()", True)] + _count_positive_atoms(f"{rs}.state_counts[OperatorState.FAILED]")
                 rq_ids = {g.node_of(a).id for a in rq_apps if a.args and norm.is_name(a.args[0], pvn)}
 
                 def edge_ok(x, y, lab, drop=drop):
@@ -234,7 +234,7 @@ def check_one(ctx, key: str, label: str, always_single: bool):
                 for a in rq_apps:
                     if a.args and norm.is_name(a.args[0], pvn):
                         fs = g.facts_at(a)
-                        okd = norm.entails(fs, ("truth", f"{rs}.is_pipeline_successful()", False)) and norm.entails(fs, ("cmp", "<=", f"{rs}.state_counts[OperatorState.FAILED]", "0"))
+                        okd = norm.entails(fs, ("truth", f"{rs}.is_pipeline_successful()", False)) and _count_zero(fs, f"{rs}.state_counts[OperatorState.FAILED]")
                         ctx.ob(4, "K2", f"[{label}] completed or failed pipelines are dropped from the queue for good (never re-queued)", okd, f, a,
                                detail=f"facts at the re-queue: {sorted(norm.show(x) for x in fs if pvn in norm.show(x))}")
     ctx.ob(3, "K3", f"[{label}] scanned survivors are re-queued at the tail by one extend after the pool loop", okreq, f, exts[0] if exts else f.node,
@@ -265,6 +265,16 @@ def _get_ops_form(v: ast.expr, pipe: str):
         ready = rp is not None and isinstance(rp, ast.Constant) and rp.value is True
         return (("ready" if ready else "any") + ("1" if first else "")), norm.U(v)
     return None, f"{norm.U(v)}: not a get_ops call on the popped pipeline's runtime status"
+
+
+def _count_zero(fs, term: str) -> bool:
+    """the FAILED count (a non-negative integer) is 0: `<= 0`, `< 1` or `== 0`"""
+    return any(norm.entails(fs, z) for z in (("cmp", "<=", term, "0"), ("cmp", "<", term, "1"), norm.mk_cmp("==", "0", term)))
+
+
+def _count_positive_atoms(term: str):
+    """atoms that say the count is positive: `0 < n`, `1 <= n`, `n != 0`"""
+    return [("cmp", "<", "0", term), ("cmp", "<=", "1", term), norm.mk_cmp("!=", "0", term)]
 
 
 def _flag_call_split(f):
